@@ -113,3 +113,23 @@ Theorem C17_buffer_chain_rejects : forall amts e,
   (exists p, In p amts /\ (fst p < 0 \/ snd p < 0)) <-> buffer_chain e amts = inl ValueError.
 Proof. exact buffer_chain_rejects. Qed.
 Print Assumptions C17_buffer_chain_rejects.
+
+(* ---- tie C (third extension, "small"): buffer() / merge_within() themselves, the constructors of the
+   two classes and _MergedWithin.fetch, as the code has them (Proofs/GenEq_small_tr.v) ---- *)
+From CG Require Import Proofs.GenEq_small_tr.
+Example C17_source_buffer_call_is_model : _ := g_buffer_eq.
+Print Assumptions C17_source_buffer_call_is_model.
+Example C17_source_buffer_rejects_negative : _ := g_buffer_rejects_negative.
+Print Assumptions C17_source_buffer_rejects_negative.
+Example C17_source_buffer_accepts_nonnegative : _ := g_buffer_accepts.
+Print Assumptions C17_source_buffer_accepts_nonnegative.
+Example C17_source_buffer_chain_is_model : _ := g_buffer_chain_eq.
+Print Assumptions C17_source_buffer_chain_is_model.
+Example C17_source_merge_within_is_model : _ := g_merge_within_eq.
+Print Assumptions C17_source_merge_within_is_model.
+Example C17_source_merged_fetch_is_model : _ := g_merged_fetch_eq.
+Print Assumptions C17_source_merged_fetch_is_model.
+Example C17_source_merge_within_fetch_is_model : _ := g_merge_within_fetch_is_model.
+Print Assumptions C17_source_merge_within_fetch_is_model.
+Example C17_source_buffer_fetch_is_model : _ := g_buffer_fetch_is_model.
+Print Assumptions C17_source_buffer_fetch_is_model.
